@@ -29,6 +29,5 @@ func revoke(ctx oidc.Context, req queryRequest) error {
 			"token was not issued for this client")
 	}
 
-	_ = ctx.DeleteGrantSession(info.GrantID)
-	return nil
+	return ctx.DeleteGrantSession(info.GrantID)
 }
